@@ -1156,14 +1156,15 @@ func (p *Policy) validURL(rawurl string) (string, bool) {
 
 // browserFindsHost reports whether a browser may resolve href to a host although
 // net/url found none. For the schemes with an authority of their own (http, https,
-// ftp, ws, wss) browsers accept any number of slashes or backslashes after the
+// ftp, ws, wss, file) browsers accept any number of slashes or backslashes after the
 // colon: http:/example.com, https:\\example.com and, on a page that was loaded
 // over another scheme, http:example.com all lead to example.com. A reference
 // without a scheme that starts with two slashes or backslashes is scheme-relative
 // whatever follows: ///example.com, /\example.com.
 func browserFindsHost(scheme, href string) bool {
 	switch scheme {
-	case "http", "https", "ftp", "ws", "wss":
+	case "http", "https", "ftp", "ws", "wss", "file":
+		// (file:\\example.com\x is file://example.com/x as well)
 		return true
 	case "":
 		isSlash := func(c byte) bool { return c == '/' || c == '\\' }
